@@ -173,7 +173,8 @@ static int hx_posix_spawn(pid_t *pid, const char *path, const posix_spawn_file_a
 			  const posix_spawnattr_t *at, char *const argv[], char *const envp[])
 {
 	(void)path; (void)fa; (void)at; (void)envp;
-	if (hx_spawn_fail) { errno = EAGAIN; spawn_stdin = -1; return -1; }
+	/* posix_spawn() returns the error number (positive) and leaves errno and *pid alone */
+	if (hx_spawn_fail) { spawn_stdin = -1; return EAGAIN; }
 	int nd = 0;
 	for (int i = 0; argv[i]; i++) if (!strcmp(argv[i], "-nd") || !strcmp(argv[i], "--no-run")) nd = 1;
 	*pid = next_pid++;
